@@ -154,6 +154,7 @@ static int do_replay(const char* file, bool verbose) {
   globals().known_multi_monitor_allowed = !(p.cfg.deny_mask & 1);
   globals().known_assign_watched_allowed = !(p.cfg.deny_mask & 2);
   globals().known_seq_destroy_live_allowed = !(p.cfg.deny_mask & 4);
+  globals().deep = (p.cfg.deny_mask & 16) != 0;
   g_inflight = p.seed;
   std::printf("B %llu\n", static_cast<unsigned long long>(p.seed)); std::fflush(stdout);
   int rc = 0;
@@ -196,6 +197,7 @@ int main(int argc, char** argv) {
     else if (a == "--no-multi-monitor") globals().known_multi_monitor_allowed = false;
     else if (a == "--no-assign-watched") globals().known_assign_watched_allowed = false;
     else if (a == "--no-seq-destroy-live") globals().known_seq_destroy_live_allowed = false;
+    else if (a == "--deep") globals().deep = true;
     else if (a == "-v") verbose = true;
     else file = argv[i];
   }
@@ -205,6 +207,7 @@ int main(int argc, char** argv) {
   if (cmd == "plan") {
     Generator g(seed, pf, faults != 0);
     Plan p = g.make(); p.seed = seed;
+    p.cfg.deny_mask = (globals().known_multi_monitor_allowed ? 0 : 1) | (globals().known_assign_watched_allowed ? 0 : 2) | (globals().known_seq_destroy_live_allowed ? 0 : 4) | (globals().deep ? 16 : 0);
     std::fputs(plan_to_text(p).c_str(), stdout);
     return 0;
   }
@@ -237,7 +240,7 @@ int main(int argc, char** argv) {
     {
       Generator g(s, pf, faults != 0);
       p = g.make(); p.seed = s;
-      p.cfg.deny_mask = (globals().known_multi_monitor_allowed ? 0 : 1) | (globals().known_assign_watched_allowed ? 0 : 2) | (globals().known_seq_destroy_live_allowed ? 0 : 4);
+      p.cfg.deny_mask = (globals().known_multi_monitor_allowed ? 0 : 1) | (globals().known_assign_watched_allowed ? 0 : 2) | (globals().known_seq_destroy_live_allowed ? 0 : 4) | (globals().deep ? 16 : 0);
     }
 #ifdef SIM_ASAN
     size_t before = __sanitizer_get_current_allocated_bytes();
